@@ -181,7 +181,9 @@ fn planar(rng: &mut Rng) {
             *p = Point2::from(p.coords * f);
         }
     }
-    let pose: Iso3 = if f == 1.0 { gen::iso3(rng, 30.0) } else { let t = gen::iso3(rng, 30.0); Iso3::from_parts((t.translation.vector * f).into(), t.rotation) };
+    // (one sheet in seven lies exactly in the plane z = 0, face up or face down: the pose in which a shortcut that
+    // reads x and y off the vertices would look right)
+    let pose: Iso3 = if rng.chance(0.15) { Iso3::identity() } else if f == 1.0 { gen::iso3(rng, 30.0) } else { let t = gen::iso3(rng, 30.0); Iso3::from_parts((t.translation.vector * f).into(), t.rotation) };
     let flip = rng.chance(0.3); // seen from below: the winding is clockwise in its own plane's +z
     let v3: Vec<Point3> = d.pts.iter().map(|p| pose * Point3::new(p.x, if flip { -p.y } else { p.y }, 0.0)).collect();
     let mesh = Mesh::new(v3.clone(), d.faces.clone(), false);
